@@ -107,6 +107,35 @@ pub fn run(ctx: &Ctx) -> i32 {
             cfgs: gen::cfgs(&[ALL_MODES, 1, common::NO_ASCII], &[d, ListMask::single(gen::idx(16, 16))], &both, &both),
         },
         Part {
+            name: "envelope look-alikes with longer bodies",
+            family: {
+                let mut v = Vec::new();
+                for pat in gen::es_e_patterns().into_iter().chain([b"@".to_vec(), b"*\r>".to_vec()]) {
+                    for n in 0..=48usize {
+                        let body: Vec<u8> = pat.iter().cycle().take(n).cloned().collect();
+                        // trailer only, header only, unknown format header with trailer, header in the middle
+                        let mut a = body.clone();
+                        a.extend_from_slice(gen::MACRO_TRAIL);
+                        v.push(a);
+                        let mut b = gen::MACRO05.to_vec();
+                        b.extend(&body);
+                        v.push(b);
+                        let mut c = b"[)>\x1e07\x1d".to_vec();
+                        c.extend(&body);
+                        c.extend_from_slice(gen::MACRO_TRAIL);
+                        v.push(c);
+                        let mut d2 = body.clone();
+                        d2.extend_from_slice(gen::MACRO06);
+                        d2.extend(&body);
+                        d2.extend_from_slice(gen::MACRO_TRAIL);
+                        v.push(d2);
+                    }
+                }
+                Family::list(v)
+            },
+            cfgs: gen::cfgs(&[ALL_MODES, common::NO_ASCII], &[d, ListMask::all()], &both, &both),
+        },
+        Part {
             name: "long macro bodies",
             family: {
                 let mut v = Vec::new();
